@@ -35,12 +35,15 @@ def run(c):
     lines, back = [], []
     ans = None
     hist = []
+    dead = False
     for i, a in enumerate(A):
         if not a:
             continue
         a = json.loads(a)
         if a["k"] == "reset":
-            ans = None; hist = []
+            ans = None; hist = []; dead = False
+        elif a["k"] == "q" and dead:
+            continue
         elif a["k"] == "q":
             lines.append("reset")
             if ans is not None:
@@ -54,11 +57,9 @@ def run(c):
             elif a["flag"] and p[0] == "number":
                 ans = "float"
         if ans == "float":
-            # a float answer cannot be preset exactly; stop using this session for the oracle
+            # a float answer cannot be preset exactly: the rest of this session is not used for the oracle
             ans = None
-            hist = None
-        if hist is None:
-            hist = []
+            dead = True
     open(os.path.join(fresh, "req.txt"), "w").write("\n".join(lines) + "\n")
     rc, out = vlib.sh([vlib.RKH, "eval-run", "--out", fresh, "--budget-ms=3000"])
     F = open(os.path.join(fresh, "impl.txt")).read().split("\n")
